@@ -98,6 +98,86 @@ pub fn structured_pairs(
     }
 }
 
+/// Long haystacks (around one page, two pages, 64 KiB; thorough: 1 MiB) with
+/// short and medium needles: size thresholds that sit far above the lengths
+/// `structured_pairs` reaches (page size, "big haystack" fast paths, the
+/// prefilter's warm-up counters). One plant, two plants and no plant, over an
+/// absent-byte filler, near-miss blocks, needle-factor concatenations and
+/// plain text.
+pub fn long_pairs(
+    r: &mut Runner,
+    f: &mut dyn FnMut(&mut Runner, &[u8], &[u8], u64),
+) {
+    let lvl = level(r);
+    if lvl == 0 {
+        return;
+    }
+    const TEXT: &[u8] = b"It was the best of times, it was the worst of times, it was the age of wisdom, it was the age of foolishness; ";
+    let mut grng = crate::util::Rng::new(r.seed ^ 0xABCD);
+    let needles = gen::needle_families(lvl, &mut grng);
+    let hlens: &[usize] = if lvl >= 2 {
+        &[4000, 4095, 4096, 4097, 4111, 8192, 8197, 16384, 65535, 65536, 65541, 1 << 20]
+    } else {
+        &[4095, 4096, 4097, 8197, 65541]
+    };
+    let mut buf: Vec<u8> = Vec::new();
+    let mut unit = 500_000u64;
+    let mut pairno = 0u64;
+    for (ni, ndl) in needles.iter().enumerate() {
+        let n = ndl.bytes.len();
+        if n == 0 || n > 300 || (lvl == 1 && n > 40 && ni % 3 != 0) {
+            continue;
+        }
+        for (hi, &hlen) in hlens.iter().enumerate() {
+            unit += 1;
+            if !r.mine(unit) {
+                continue;
+            }
+            if hlen >= 1 << 20 && ni % 8 != 0 {
+                continue;
+            }
+            let mut urng = crate::util::Rng::new(r.seed ^ unit.wrapping_mul(0x9E37));
+            let nbg = if lvl >= 2 { 4 } else { 2 };
+            for b in 0..nbg {
+                let bg = [0usize, 7, 2, 100][(b + ni + hi) % 4];
+                if bg == 100 {
+                    buf.clear();
+                    while buf.len() < hlen {
+                        let take = TEXT.len().min(hlen - buf.len());
+                        buf.extend_from_slice(&TEXT[..take]);
+                    }
+                } else {
+                    gen::background(&mut buf, hlen, &ndl.bytes, bg, &mut urng);
+                }
+                pairno += 1;
+                f(r, &buf, &ndl.bytes, pairno);
+                let saved = buf.clone();
+                let last = hlen - n;
+                let singles = [0usize, 1, 15, hlen / 2 + 3, 4096usize.min(last), last - 1, last];
+                let k = (ni + hi + b) % singles.len();
+                for (j, &d) in singles.iter().enumerate() {
+                    if lvl == 1 && j != k && j != (k + 3) % singles.len() {
+                        continue;
+                    }
+                    let d = d.min(last);
+                    buf.copy_from_slice(&saved);
+                    buf[d..d + n].copy_from_slice(&ndl.bytes);
+                    pairno += 1;
+                    f(r, &buf, &ndl.bytes, pairno);
+                    // a second plant far away: leftmost / rightmost matter
+                    let d2 = (d + hlen / 3 + 7) % (last + 1);
+                    buf[d2..d2 + n].copy_from_slice(&ndl.bytes);
+                    pairno += 1;
+                    f(r, &buf, &ndl.bytes, pairno);
+                }
+                if r.stop() {
+                    return;
+                }
+            }
+        }
+    }
+}
+
 /// Exhaustive pairs over a small alphabet: every needle of length <= nmax
 /// against every haystack of length <= hmax; optionally embedded in a
 /// background so that the vector / Two-Way routes are reached.
@@ -266,6 +346,8 @@ pub fn meta_search(r: &mut Runner, rev: bool) {
     // (2) structured
     let maxn = if lvl >= 2 { 5000 } else { 700 };
     structured_pairs(r, maxn, &mut run_pair);
+    // (2b) long haystacks
+    long_pairs(r, &mut run_pair);
     // (3) random
     random_pairs(r, rev, &mut run_pair);
     if !rev {
